@@ -3493,6 +3493,48 @@ impl<'s> Semantics<'s> {
         Ok(())
     }
 
+    /// The count of a shift as the processor uses it: masked to 5 bits, or 6 bits
+    /// for a 64-bit operand.
+    fn mask_shift_count(&self, operand_bits: usize, count: Expression) -> Result<Expression, Error> {
+        let count_mask = if operand_bits == 64 { 0x3f } else { 0x1f };
+        Expr::and(count.clone(), expr_const(count_mask, count.bits()))
+    }
+
+    /// Assigns `value` to a flag if `affected` holds and leaves the flag alone
+    /// otherwise (a shift whose masked count is zero changes no flag).
+    fn assign_flag_if(
+        &self,
+        block: &mut Block,
+        flag: &'static str,
+        affected: &Expression,
+        value: Expression,
+    ) -> Result<(), Error> {
+        block.assign(
+            scalar(flag, 1),
+            Expr::ite(affected.clone(), value, expr_scalar(flag, 1))?,
+        );
+        Ok(())
+    }
+
+    /// ZF and SF of `result`, assigned only if `affected` holds
+    fn set_zf_sf_if(
+        &self,
+        block: &mut Block,
+        affected: &Expression,
+        result: Expression,
+    ) -> Result<(), Error> {
+        let zf = Expr::cmpeq(result.clone(), expr_const(0, result.bits()))?;
+        let sf = Expr::trun(
+            1,
+            Expr::shr(
+                result.clone(),
+                expr_const((result.bits() - 1) as u64, result.bits()),
+            )?,
+        )?;
+        self.assign_flag_if(block, "ZF", affected, zf)?;
+        self.assign_flag_if(block, "SF", affected, sf)
+    }
+
     pub fn sar(&self, control_flow_graph: &mut ControlFlowGraph) -> Result<(), Error> {
         let detail = self.details()?;
 
@@ -3506,6 +3548,10 @@ impl<'s> Semantics<'s> {
             if lhs.bits() != rhs.bits() {
                 rhs = Expr::zext(lhs.bits(), rhs)?;
             }
+            // the processor masks the count to 5 bits (6 for 64-bit operands);
+            // a masked count of zero changes no flag
+            let rhs = self.mask_shift_count(lhs.bits(), rhs)?;
+            let affected = Expr::cmpneq(rhs.clone(), expr_const(0, rhs.bits()))?;
 
             // Do the SAR
             let expr = Expr::ashr(lhs.clone(), rhs.clone())?;
@@ -3523,13 +3569,12 @@ impl<'s> Semantics<'s> {
             let cf = Expr::shr(lhs, Expr::sub(rhs.clone(), expr_const(1, rhs.bits()))?)?;
             // Apply mask
             let cf = Expr::trun(1, Expr::and(cf, non_zero_mask)?)?;
-            block.assign(scalar("CF", 1), cf);
+            self.assign_flag_if(block, "CF", &affected, cf)?;
 
             // OF is the last bit shifted out
-            block.assign(scalar("OF", 1), expr_const(0, 1));
+            self.assign_flag_if(block, "OF", &affected, expr_const(0, 1))?;
 
-            self.set_zf(block, expr.clone())?;
-            self.set_sf(block, expr.clone())?;
+            self.set_zf_sf_if(block, &affected, expr.clone())?;
 
             self.operand_store(block, &detail.operands[0], expr)?;
 
@@ -3751,6 +3796,10 @@ impl<'s> Semantics<'s> {
             if lhs.bits() != rhs.bits() {
                 rhs = Expr::zext(lhs.bits(), rhs)?;
             }
+            // the processor masks the count to 5 bits (6 for 64-bit operands);
+            // a masked count of zero changes no flag
+            let rhs = self.mask_shift_count(lhs.bits(), rhs)?;
+            let affected = Expr::cmpneq(rhs.clone(), expr_const(0, rhs.bits()))?;
 
             // Do the SHL
             let expr = Expr::shl(lhs.clone(), rhs.clone())?;
@@ -3769,7 +3818,7 @@ impl<'s> Semantics<'s> {
             // Extract MSB (shift right by bits-1), then apply non-zero mask
             let cf = Expr::shr(cf.clone(), expr_const(cf.bits() as u64 - 1, cf.bits()))?;
             let cf = Expr::trun(1, Expr::and(cf, non_zero_mask)?)?;
-            block.assign(scalar("CF", 1), cf.clone());
+            self.assign_flag_if(block, "CF", &affected, cf.clone())?;
 
             // OF (count==1): OF = MSB(result) XOR CF
             let of = Expr::xor(
@@ -3782,10 +3831,9 @@ impl<'s> Semantics<'s> {
                     )?,
                 )?,
             )?;
-            block.assign(scalar("OF", 1), of);
+            self.assign_flag_if(block, "OF", &affected, of)?;
 
-            self.set_zf(block, expr.clone())?;
-            self.set_sf(block, expr.clone())?;
+            self.set_zf_sf_if(block, &affected, expr.clone())?;
 
             self.operand_store(block, &detail.operands[0], expr)?;
 
@@ -3811,6 +3859,10 @@ impl<'s> Semantics<'s> {
             if lhs.bits() != rhs.bits() {
                 rhs = Expr::zext(lhs.bits(), rhs)?;
             }
+            // the processor masks the count to 5 bits (6 for 64-bit operands);
+            // a masked count of zero changes no flag
+            let rhs = self.mask_shift_count(lhs.bits(), rhs)?;
+            let affected = Expr::cmpneq(rhs.clone(), expr_const(0, rhs.bits()))?;
 
             // Do the SHR
             let expr = Expr::shr(lhs.clone(), rhs.clone())?;
@@ -3831,19 +3883,20 @@ impl<'s> Semantics<'s> {
             )?;
             // Apply mask
             let cf = Expr::trun(1, Expr::and(cf, non_zero_mask)?)?;
-            block.assign(scalar("CF", 1), cf);
+            self.assign_flag_if(block, "CF", &affected, cf)?;
 
             // OF set to most significant bit of the original operand
-            block.assign(
-                scalar("OF", 1),
+            self.assign_flag_if(
+                block,
+                "OF",
+                &affected,
                 Expr::trun(
                     1,
                     Expr::shr(lhs.clone(), expr_const(lhs.bits() as u64 - 1, lhs.bits()))?,
                 )?,
-            );
+            )?;
 
-            self.set_zf(block, expr.clone())?;
-            self.set_sf(block, expr.clone())?;
+            self.set_zf_sf_if(block, &affected, expr.clone())?;
 
             self.operand_store(block, &detail.operands[0], expr)?;
 
